@@ -60,10 +60,11 @@ def scenario(rng, i):
     rounds = []
     renamed_before = set()
     ever = set(gen.all_files(cur)) | set(gen.all_dirs(cur))          # a new name never re-uses a path that was recorded before
+    fresh = set()                                                     # files added since the last generation that covers the whole tree
     for rnd_no in range(rng.choice([1, 1, 2, 3])):
         # a file renamed in an earlier round may be renamed again (one step per generation): after a -> b -> c the tree
         # must be accepted just the same
-        files = [f for f in gen.all_files(cur) if f not in renamed_before or (i % 3 != 0)]
+        files = [f for f in gen.all_files(cur) if (f not in renamed_before or (i % 3 != 0)) and f not in fresh]     # only recorded files are renamed
         if not files:
             break
         k = min(len(files), rng.choice([1, 1, 2, 3, 4]))
@@ -88,6 +89,7 @@ def scenario(rng, i):
             if e["path"] in ever:
                 continue
             ever.add(e["path"])
+            fresh.add(e["path"])
             steps.append(e)
             cur = world.tree_apply(cur, e)
         if not ren:
@@ -97,6 +99,7 @@ def scenario(rng, i):
         if dr:
             rnd["create"] = len(steps)
             steps.append({"op": "create", "fmts": gen.gen_fmts(rng), "dr": True})
+            fresh.clear()
             acc = []
             for op in rng.sample(["verify", "diff", "create"], rng.choice([2, 3])):
                 acc.append(len(steps))
